@@ -334,6 +334,18 @@ func (w *WAL) acquireState() (*state, func()) {
 	return s, s.acquire()
 }
 
+// acquireOpenState is like acquireState but returns ErrClosed if Close has
+// already replaced the state. Callers check the closed flag first, but Close
+// can still run between that check and the state being loaded.
+func (w *WAL) acquireOpenState() (*state, func(), error) {
+	s, release := w.acquireState()
+	if s.segments == nil {
+		release()
+		return nil, nil, ErrClosed
+	}
+	return s, release, nil
+}
+
 // newSegment creates a types.SegmentInfo with the passed ID and baseIndex, filling in
 // the segment parameters based on the current WAL configuration.
 func (w *WAL) newSegment(ID, baseIndex uint64) types.SegmentInfo {
@@ -353,7 +365,10 @@ func (w *WAL) FirstIndex() (uint64, error) {
 	if err := w.checkClosed(); err != nil {
 		return 0, err
 	}
-	s, release := w.acquireState()
+	s, release, err := w.acquireOpenState()
+	if err != nil {
+		return 0, err
+	}
 	defer release()
 	return s.firstIndex(), nil
 }
@@ -363,7 +378,10 @@ func (w *WAL) LastIndex() (uint64, error) {
 	if err := w.checkClosed(); err != nil {
 		return 0, err
 	}
-	s, release := w.acquireState()
+	s, release, err := w.acquireOpenState()
+	if err != nil {
+		return 0, err
+	}
 	defer release()
 	return s.lastIndex(), nil
 }
@@ -373,7 +391,10 @@ func (w *WAL) GetLog(index uint64, log *raft.Log) error {
 	if err := w.checkClosed(); err != nil {
 		return err
 	}
-	s, release := w.acquireState()
+	s, release, err := w.acquireOpenState()
+	if err != nil {
+		return err
+	}
 	defer release()
 	w.metrics.IncrementCounter("log_entries_read", 1)
 
@@ -409,7 +430,10 @@ func (w *WAL) StoreLogs(logs []*raft.Log) error {
 	// write lock.
 	w.awaitRotationLocked()
 
-	s, release := w.acquireState()
+	s, release, err := w.acquireOpenState()
+	if err != nil {
+		return err
+	}
 	defer release()
 
 	// Verify monotonicity since we assume it
@@ -516,7 +540,10 @@ func (w *WAL) DeleteRange(min uint64, max uint64) error {
 	// write lock.
 	w.awaitRotationLocked()
 
-	s, release := w.acquireState()
+	s, release, err := w.acquireOpenState()
+	if err != nil {
+		return err
+	}
 	defer release()
 
 	// Work out what type of truncation this is.
